@@ -28,7 +28,7 @@ def mk(op, attr=None, args=(), ty=None):
     return n
 
 def reset():
-    _table.clear(); del _nodes[:]
+    _table.clear(); del _nodes[:]; _ite_memo.clear()
 
 COMMUT = {'fadd', 'fmul', 'add', 'mul', 'and', 'or', 'xor'}
 
@@ -94,6 +94,25 @@ def _reinit():
 def binop(op, a, b, ty):
     if op == 'fsub':
         return binop('fadd', a, fneg(b), ty)
+    if op in ('fmul', 'fdiv'):
+        # sign extraction (exact in IEEE-754: the sign of a product/quotient is the xor of the
+        # operand signs): (-a)*b = -(a*b), a*(-c) = -(a*c) for constants c with the sign bit set.
+        # instcombine applies these opportunistically, so both shapes occur for one source.
+        neg = False
+        def strip(x):
+            nonlocal neg
+            if x.op == 'fneg':
+                neg = not neg
+                return x.args[0]
+            if x.op == 'const' and x.attr[0] in ('float', 'double'):
+                w = 31 if x.attr[0] == 'float' else 63
+                if x.attr[1] >> w and const_value(x) != 'nan':
+                    neg = not neg
+                    return const_fp(x.attr[0], x.attr[1] ^ (1 << w))
+            return x
+        a = strip(a); b = strip(b)
+        if neg:
+            return fneg(binop(op, a, b, ty))
     if op in COMMUT and b.id < a.id:
         a, b = b, a
     if ty == 'i1':
@@ -107,10 +126,10 @@ def binop(op, a, b, ty):
             if a is FALSE: return b
             if b is FALSE: return a
     if op == 'fmul':
-        # x * -1.0 == -x exactly
+        # x * 1.0 == x exactly (the -1.0 case arrives here after sign extraction)
         for x, y in ((a, b), (b, a)):
-            if is_const(y) and const_value(y) == -1:
-                return fneg(x)
+            if is_const(y) and const_value(y) == 1:
+                return x
     if is_const(a) and is_const(b) and ty.startswith('i') and ty != 'i1':
         w = int(ty[1:]); m = (1 << w) - 1
         x, y = a.attr[1], b.attr[1]
@@ -288,6 +307,16 @@ def ite(c, a, b):
     if a is b: return a
     if c.op == 'not':
         return ite(c.args[0], b, a)
+    key = (c.id, a.id, b.id)
+    r = _ite_memo.get(key)
+    if r is None:
+        r = _ite(c, a, b)
+        _ite_memo[key] = r
+    return r
+
+_ite_memo = {}
+
+def _ite(c, a, b):
     if c.op == 'ite':
         cid = c.args[0].id
         v = min(cid, _top(a), _top(b))
@@ -312,6 +341,20 @@ def _mkite(c, a, b):
     return mk('ite', None, (c, a, b), a.ty if a.ty else b.ty)
 
 def call(name, args, ty):
+    # parity identities that LLVM's instcombine applies opportunistically (so both shapes occur
+    # for the same source): cos(-x) = cos(x), fabs(-x) = fabs(x), sin(-x) = -sin(x), tan, atan, asin odd
+    if len(args) == 1 and args[0].op == 'fneg':
+        if name in ('cos', 'fabs', 'cosh'):
+            return mk('call', name, (args[0].args[0],), ty)
+        if name in ('sin', 'tan', 'atan', 'asin', 'sinh', 'tanh'):
+            return fneg(mk('call', name, (args[0].args[0],), ty))
+    if name == 'fabs' and len(args) == 1 and args[0].op == 'ite':
+        # fabs(c ? -x : x) = fabs(x) (instcombine folds this when it sees it): distribute fabs over
+        # the conditional; equal arms collapse
+        c, a, b = args[0].args
+        fa, fb = call('fabs', [a], ty), call('fabs', [b], ty)
+        if fa is fb:
+            return fa
     return mk('call', name, tuple(args), ty)
 
 def inp(base, off, size, ty):
@@ -368,13 +411,19 @@ def resolve(n, asg, memo=None):
         if not x.args:
             r = x
         elif x.op == 'ite':
-            c = rec(x.args[0])
-            if c in asg:
-                r = rec(x.args[1] if asg[c] else x.args[2])
-            elif c.op == 'not' and c.args[0] in asg:
-                r = rec(x.args[2] if asg[c.args[0]] else x.args[1])
+            c0 = x.args[0]
+            if c0 in asg:
+                # conditions are identified by their original node: operands of a condition
+                # may themselves contain conditionals that this very assignment resolves
+                r = rec(x.args[1] if asg[c0] else x.args[2])
             else:
-                r = ite(c, rec(x.args[1]), rec(x.args[2]))
+                c = rec(c0)
+                if c in asg:
+                    r = rec(x.args[1] if asg[c] else x.args[2])
+                elif c.op == 'not' and c.args[0] in asg:
+                    r = rec(x.args[2] if asg[c.args[0]] else x.args[1])
+                else:
+                    r = ite(c, rec(x.args[1]), rec(x.args[2]))
         else:
             na = tuple(rec(a) for a in x.args)
             if all(p is q for p, q in zip(na, x.args)):
@@ -402,6 +451,8 @@ def rebuild(x, na):
         return ite(*na)
     if op in ('zext', 'sext', 'trunc', 'fpext', 'fptrunc', 'sitofp', 'uitofp', 'fptosi', 'fptoui', 'bitcast', 'ptrtoint', 'inttoptr'):
         return cast(op, na[0], x.attr[0], x.attr[1])
+    if op == 'call':
+        return call(x.attr, na, x.ty)
     return mk(op, x.attr, na, x.ty)
 
 def subst(n, mapping, memo=None):
@@ -465,3 +516,36 @@ def show(n, depth=6, names=None):
     import sys
     sys.setrecursionlimit(max(sys.getrecursionlimit(), 100000))
     return rec(n, depth)
+
+def equiv(x, y, budget=20000):
+    """semantic equality of two terms modulo distribution of operations over conditionals:
+    identical nodes, or same operator with pairwise equivalent operands, or - when a conditional
+    is in the way - equivalent under both truth values of its condition."""
+    memo = {}
+    cnt = [0]
+    def rec(a, b):
+        if a is b:
+            return True
+        key = (a.id, b.id)
+        r = memo.get(key)
+        if r is not None:
+            return r
+        cnt[0] += 1
+        if cnt[0] > budget:
+            raise OverflowError('equivalence budget exhausted')
+        memo[key] = False   # cycle guard (terms are DAGs; not needed, but keeps memo total)
+        r = False
+        if a.op == 'ite' and b.op == 'ite' and rec(a.args[0], b.args[0]) and rec(a.args[1], b.args[1]) and rec(a.args[2], b.args[2]):
+            r = True
+        elif a.op == 'ite' or b.op == 'ite':
+            c = a.args[0] if a.op == 'ite' else b.args[0]
+            if a.op == 'ite' and b.op == 'ite' and b.args[0].id < a.args[0].id:
+                c = b.args[0]
+            r = rec(resolve(a, {c: True}), resolve(b, {c: True})) and rec(resolve(a, {c: False}), resolve(b, {c: False}))
+        elif a.op == b.op and a.attr == b.attr and a.ty == b.ty and len(a.args) == len(b.args) and a.args:
+            r = all(rec(p, q) for p, q in zip(a.args, b.args))
+            if not r and a.op in COMMUT and len(a.args) == 2:
+                r = rec(a.args[0], b.args[1]) and rec(a.args[1], b.args[0])
+        memo[key] = r
+        return r
+    return rec(x, y)
